@@ -317,19 +317,30 @@ func (gme *GCPMultiEndpoint) UpdateMultiEndpoints(meOpts *GCPMultiEndpointOption
 		}
 	}
 
-	// Add missing pools.
+	// Dial missing pools. Nothing is registered (and no monitor is started)
+	// until every dial has succeeded; on a dial error the connections created
+	// by this call are closed again.
+	newConns := make(map[string]*grpc.ClientConn)
 	for e := range validPools {
 		if _, ok := gme.pools[e]; !ok {
 			// This creates a ClientConn with the gRPC-GCP balancer managing connection pool.
 			conn, err := gme.dialFunc(context.Background(), e, gme.opts...)
 			if err != nil {
+				for ne, c := range newConns {
+					if cerr := c.Close(); cerr != nil {
+						gme.log.Errorf("error while closing the pool for %q endpoint: %v", ne, cerr)
+					}
+				}
 				return err
 			}
-			if gme.log.V(FINE) {
-				gme.log.Infof("created new channel pool for %q endpoint.", e)
-			}
-			gme.pools[e] = newMonitoredConn(e, conn, gme)
+			newConns[e] = conn
 		}
+	}
+	for e, conn := range newConns {
+		if gme.log.V(FINE) {
+			gme.log.Infof("created new channel pool for %q endpoint.", e)
+		}
+		gme.pools[e] = newMonitoredConn(e, conn, gme)
 	}
 
 	// Add new multi-endpoints and update existing.
